@@ -553,7 +553,187 @@ def check_spectrum(ck, rows, n, res, label, replay):
                          % (g, opstr, why), replay)
 
 
+# phase table of the Pauli group derived from the 2x2 matrices (independent of the source's c_calc and of collapse)
+def _own_phase_table():
+    tab = {}
+    for a in range(4):
+        for b in range(4):
+            prod = PMAT[a] @ PMAT[b]
+            c = a ^ b
+            ph = [z for z in (1, 1j, -1, -1j) if np.allclose(prod, z * PMAT[c])]
+            tab[(a, b)] = ph[0]
+    return tab
+
+
+OWN_PHASE = _own_phase_table()
+
+
+def sym_mul(A, B):
+    """Product of two operators given as dicts codes-tuple -> complex, term by term, merged in a dict."""
+    out = {}
+    for ra, ca in A.items():
+        for rb, cb in B.items():
+            ph = 1
+            for x, y in zip(ra, rb):
+                if x and y:
+                    ph *= OWN_PHASE[(x, y)]
+            r = tuple(x ^ y for x, y in zip(ra, rb))
+            out[r] = out.get(r, 0j) + ca * cb * ph
+    return out
+
+
+def reference_taper(rows, udict, q, signs):
+    """U (H U) by the symbolic product above, then eigenvalue substitution on the tapered qubits and deletion of
+    their columns (reference for do_taper, given the implementation's own U, q_indices and signs)."""
+    U = {tuple(int(ch) for ch in r): c for r, c in udict.items()}
+    H = {}
+    for r, c in rows:
+        H[tuple(r)] = H.get(tuple(r), 0j) + c
+    P = sym_mul(U, sym_mul(H, U))
+    out = {}
+    for r, c in P.items():
+        if abs(c) < 1e-12:
+            continue
+        for idx, sg in zip(q, signs):
+            if r[idx] and sg:
+                c = -c
+        key = codes_str([x for j, x in enumerate(r) if j not in set(q)])
+        out[key] = out.get(key, 0j) + c
+    return {r: c for r, c in out.items() if abs(c) > 1e-10}
+
+
+def terms_to_dict(terms, nt):
+    d = {}
+    for term, c in terms.items():
+        key = codes_str(term_to_codes(term, nt)) if nt > 0 else ""
+        d[key] = d.get(key, 0j) + complex(c)
+    return {r: c for r, c in d.items() if abs(c) > 1e-12}
+
+
+def history_calls(ck, rows, n, res, fresh, replay, label):
+    """Later calls on the SAME QubitTapering object: z2_tapering(H) again, z2_taper(H, eigenvalues=another sector),
+    z2_tapering(H) a third time; each compared with the constructor's result / a freshly constructed object and with
+    the sector oracle (the eigenvalue list must stay paired with the tapered qubits over the whole history)."""
+    from tangelo.toolboxes.operators.multiformoperator import MultiformOperator
+    if "err" in res or not res["q"]:
+        return
+    tp, nt = res["tp"], res["nt"]
+    hist = dict(replay, history=True)
+    H = lambda: qop_from_rows(rows)                                              # noqa: E731
+    rng = ck.rng
+    flips = [rng.random() < 0.5 for _ in res["signs"]]
+    if not any(flips):
+        flips[rng.randrange(len(flips))] = True
+    signs2 = [s != f for s, f in zip(res["signs"], flips)]
+    eig2 = np.array([-1 if s else 1 for s in signs2])
+    steps = [("z2_tapering", None), ("z2_taper-other-sector", eig2), ("z2_tapering", None)]
+    for i, (what, eig) in enumerate(steps, start=2):
+        try:
+            if eig is None:
+                d = terms_to_dict(tp.z2_tapering(H(), n).terms, nt)
+                signs = res["signs"]
+            else:
+                d = terms_to_dict(tp.z2_taper(MultiformOperator.from_qubitop(H(), n), eigenvalues=eig).terms, nt)
+                signs = signs2
+        except Exception as e:
+            ck.violation("C14/%s/later-call-raises" % label, "call %d (%s) on the same QubitTapering object raised %r" % (i, what, e), hist)
+            return
+        ck.case("taper-history", json.dumps([replay, i, what]), nontrivial=sorted(res["q"]) != list(res["q"]) and len(set(res["signs"])) > 1,
+                tags=[what, "q-sorted" if sorted(res["q"]) == list(res["q"]) else "q-unsorted",
+                      "eigs-uniform" if len(set(res["signs"])) <= 1 else "eigs-mixed"])
+        if eig is None and not dict_close(d, res["T"], 1e-8):
+            ck.violation("C14/z2_tapering/later-call-differs-from-first",
+                         "call %d on the same QubitTapering object (z2_tapering of the SAME operator) returns %s, the constructor "
+                         "returned %s; q_indices %s, eigenvalue signs %s, operator %s" % (
+                             i, fmt_dict(d)[:400], fmt_dict(res["T"])[:400], res["q"], bits_str(res["signs"]),
+                             [(codes_str(r), c.real) for r, c in rows][:12]), hist)
+        if eig is not None and fresh is not None and "err" not in fresh:
+            try:
+                ref = reference_taper(rows, res["U"], res["q"], signs2)
+                if len(set(res["q"])) == len(res["q"]) and not dict_close(d, ref, 1e-8):
+                    ck.violation("C14/z2_taper/other-sector-differs-from-symbolic-reference",
+                                 "call %d: z2_taper(H, eigenvalues=%s) returns %s; U H U with these eigenvalues substituted on "
+                                 "q_indices %s is %s" % (i, list(eig2), fmt_dict(d)[:400], res["q"], fmt_dict(ref)[:400]), hist)
+            except Exception:
+                pass
+        check_spectrum(ck, rows, n, dict(res, T=d, signs=signs), "%s-later-call" % label, hist)
+    # a freshly constructed object must agree with the first one (no state leaks between objects either)
+    if fresh is not None and "err" not in fresh and not dict_close(fresh["T"], res["T"], 1e-8):
+        ck.violation("C14/%s/fresh-object-differs" % label, "a second QubitTapering object built from the same operator gives %s, the "
+                     "first gave %s" % (fmt_dict(fresh["T"])[:400], fmt_dict(res["T"])[:400]), hist)
+
+
+def gen_large_symmetric(rng, n, k, n_terms):
+    """Rows on n qubits commuting with k Z-type symmetries s_i = Z_i * (Z's on the last n-k qubits), i < k."""
+    tails = [[rng.randint(0, 1) for _ in range(n - k)] for _ in range(k)]
+    sym = []
+    for i in range(k):
+        r = [0] * n
+        r[i] = 1
+        for j, b in enumerate(tails[i]):
+            r[k + j] = b
+        sym.append(tuple(r))
+    rows = {}
+    # number-like terms make every symmetry of the operator Z-type (as for molecular Hamiltonians)
+    for q in range(n):
+        r = [0] * n
+        r[q] = 1
+        rows[tuple(r)] = complex(rng.randint(1, 12) / 8, 0)
+    tries = 0
+    while len(rows) < n_terms and tries < 200000:
+        tries += 1
+        r = tuple(rng.choice([0, 0, 1, 2, 3]) for _ in range(n))
+        if any(sympl(r, s_) for s_ in sym) or r in rows or not any(r):
+            continue
+        rows[r] = complex(rng.choice([-1, 1]) * rng.randint(1, 16) / 8, 0)
+    return list(rows.items()), sym
+
+
+def probe_large_tapering(ck, min_rows):
+    """One tapering instance whose second product U * (H U) has more than `min_rows` (term x term) rows."""
+    n, k = 8, 5
+    for n_terms in (60, 90, 130, 180):
+        rows, sym = gen_large_symmetric(ck.rng, n, k, n_terms)
+        ok, basis = abelian_commutant([r for r, _ in rows], n)
+        if not ok or len(basis) < k:
+            continue
+        ne = ck.rng.randint(1, n - 1)
+        res = run_tapering_impl(rows, n, ne, 0, "JW", False)
+        replay = {"kind": "pipeline", "n": n, "rows": [[list(r), [c.real, c.imag]] for r, c in rows], "n_electrons": ne, "large": True}
+        if "err" in res:
+            ck.violation("C14/QubitTapering-large/raises", "QubitTapering raised %s on a %d-term operator with %d Z2 symmetries"
+                         % (res.get("exc"), len(rows), k), replay)
+            return
+        U = {tuple(int(ch) for ch in r): c for r, c in res["U"].items()}
+        hu = sym_mul({tuple(r): c for r, c in rows}, U)
+        n_rows = len(U) * len([1 for c in hu.values() if abs(c) > 0])
+        if n_rows <= min_rows:
+            continue
+        ck.notes.setdefault("large_tapering_rows", []).append(n_rows)
+        ck.case("taper-large", json.dumps([n, len(rows), n_rows]), nontrivial=True,
+                sample={"n_qubits": n, "terms": len(rows), "symmetries": len(res["kernel"]), "removed": len(res["q"]),
+                        "rows_of_second_product": n_rows}, tags=["rows>%d" % min_rows])
+        check_spectrum(ck, rows, n, res, "QubitTapering-large", replay)
+        if len(set(res["q"])) == len(res["q"]):
+            ref = reference_taper(rows, res["U"], res["q"], res["signs"])
+            if not dict_close(ref, res["T"], 1e-8):
+                worst = max(set(ref) | set(res["T"]), key=lambda r: abs(ref.get(r, 0j) - res["T"].get(r, 0j)))
+                ck.violation("C14/QubitTapering-large/differs-from-symbolic-product",
+                             "%d-term operator on %d qubits with %d Z2 symmetries (second product U*(H*U): %d rows before merging): the "
+                             "tapered operator differs from U H U computed term by term, e.g. word %s: %s vs %s"
+                             % (len(rows), n, len(res["kernel"]), n_rows, worst, res["T"].get(worst, 0j), ref.get(worst, 0j)), replay)
+        return
+    ck.notes["large_tapering_not_generated"] = min_rows
+
+
 def stream_pipeline(ck, n_cases):
+    ck.stream("taper-history", "later calls on the same QubitTapering object (z2_tapering(H) again, z2_taper(H, eigenvalues = another "
+              "sector), z2_tapering(H) a third time) for every pipeline / molecular case; compared with the constructor's result, a "
+              "freshly built object, the symbolic U H U with substituted eigenvalues, and the sector oracle; non-trivial = tapered "
+              "indices not ascending and eigenvalues not all equal")
+    ck.stream("taper-large", "one (thorough: two) synthetic 8-qubit operator with 5 Z-type Z2 symmetries whose product U*(H*U) has more "
+              "than 32767 (thorough: also 65535) rows before merging; tapered operator vs the exact spectrum / sector ground energy and "
+              "vs the term-by-term symbolic product")
     ck.stream("taper-pipeline", "QubitTapering on random operators with symmetries (2-5 qubits, <= 10 terms, real dyadic "
               "coefficients, JW reference vectors) run with np.product aliased inside the harness; kernel, q_indices, "
               "eigenvalue signs exact, unitary and tapered operator within 1e-9 of the Coq model over Q(zeta_32); oracle: "
@@ -578,6 +758,8 @@ def stream_pipeline(ck, n_cases):
         impls.append(res)
         exprs.append("run_pipeline gen_c_calc gen_cull %s 8%%positive %s %s" % (coq_nat(n), coq_rows_zz(rows, 8), coq_str(bits_str(psi))))
         check_spectrum(ck, rows, n, res, "QubitTapering", replay)
+        if "err" not in res and ck.rng.random() < 0.7:
+            history_calls(ck, rows, n, res, run_tapering_impl(rows, n, ne, 0, "JW", False), replay, "QubitTapering")
         # ---- a second operator, generally not commuting with the symmetries, through z2_tapering
         if "err" not in res and ck.rng.random() < 0.6:
             rows2 = [(rand_row(ck.rng, n), rand_coef(ck.rng)) for _ in range(ck.rng.randint(1, 3))]
@@ -690,6 +872,7 @@ def stream_molecules(ck):
     mols = [("H2", [("H", (0, 0, 0)), ("H", (0, 0, 0.74))], 0, 0, None)]
     if ck.tier == "thorough":
         mols += [("H2-triplet", [("H", (0, 0, 0)), ("H", (0, 0, 0.74))], 0, 2, None),
+                 ("H3-doublet", [("H", (0, 0, 0)), ("H", (0, 0, 0.9)), ("H", (0, 0, 1.8))], 0, 1, None),
                  ("H4", [("H", (0, 0, 0)), ("H", (0, 0, 0.9)), ("H", (0, 0, 1.8)), ("H", (0, 0, 2.7))], 0, 0, None),
                  ("H4-frozen", [("H", (0, 0, 0)), ("H", (0, 0, 0.9)), ("H", (0, 0, 1.8)), ("H", (0, 0, 2.7))], 0, 0, [0])]
     for name, geom, q, spin, frozen in mols:
@@ -727,6 +910,8 @@ def stream_molecules(ck):
                                  replay)
                     continue
                 check_spectrum(ck, rows, n, res, "QubitTapering-molecule", replay)
+                history_calls(ck, rows, n, res, None if n > 6 else run_tapering_impl(rows, n, ne, spin, mapping, utd), replay,
+                              "QubitTapering-molecule")
                 # the physically defined sector: lowest eigenvalue with <N> = n_electrons, <Sz> = spin/2
                 if n <= 8:
                     hmat = dense_matrix(rows, n)
@@ -1331,11 +1516,32 @@ def run(ck):
     with shim(use_where=True, active=bool(product_needed or where_needed)):
         safe(ck, "probe-culling", probe_culling)
         safe(ck, "probe-duplicate-index", probe_duplicate_index)
+        safe(ck, "taper-large", probe_large_tapering, 32767)
+        if not q:
+            safe(ck, "taper-large-2", probe_large_tapering, 65535)
         safe(ck, "taper-pipeline", stream_pipeline, 40 if q else 260)
         safe(ck, "taper-molecules", stream_molecules)
 
 
 # ------------------------------------------------------------------------------------------ replay
+class Collector:
+    """Stand-in for Check in replays: records violations, ignores coverage."""
+    def __init__(self, seed=0):
+        import random
+        self.rng = random.Random(seed)
+        self.found = []
+        self.notes = {}
+
+    def violation(self, sig, desc, replay=None, found_input=True):
+        self.found.append((sig, desc))
+
+    def case(self, *a, **k):
+        pass
+
+    def stream(self, *a, **k):
+        return {"dist": {}}
+
+
 def replay(data):
     r = data["replay"]
     kind = r.get("kind")
@@ -1388,7 +1594,8 @@ def replay(data):
         if "err" in res:
             print("QubitTapering raised", res["exc"])
             return 1
-        print("kernel", [codes_str(k) for k in res["kernel"]], "q_indices", res["q"], "tapered", fmt_dict(res["T"]))
+        print("kernel", [codes_str(k) for k in res["kernel"]], "q_indices", res["q"], "signs", bits_str(res["signs"]),
+              "tapered", fmt_dict(res["T"])[:600])
         if kind == "taper_noncommuting":
             rows2 = [(tuple(a), complex(*c)) for a, c in r["rows2"]]
             t = res["tp"].z2_tapering(qop_from_rows(rows2), r["n"])
@@ -1398,6 +1605,18 @@ def replay(data):
             d2 = {k: v for k, v in t.terms.items() if abs(v) > 1e-12}
             d3 = {k: v for k, v in (t3.terms.items() if t3 is not None else []) if abs(v) > 1e-12}
             return 1 if d2 != d3 else 0
-        return 1
+        col = Collector(data.get("seed", 0))
+        check_spectrum(col, rows, r["n"], res, "QubitTapering", r)
+        if len(set(res["q"])) == len(res["q"]):
+            ref = reference_taper(rows, res["U"], res["q"], res["signs"])
+            if not dict_close(ref, res["T"], 1e-8):
+                col.violation("C14/QubitTapering/differs-from-symbolic-product", "tapered operator differs from the term-by-term U H U")
+        if r.get("history"):
+            for trial in range(4):                       # several alternative sectors
+                history_calls(col, rows, r["n"], res, run_tapering_impl(rows, r["n"], r.get("n_electrons", 0), 0, "JW", False), r,
+                              "QubitTapering")
+        for sig, desc in dict(col.found).items():
+            print("FINDING", sig, desc[:500])
+        return 1 if col.found else 0
     print(json.dumps(r, indent=1, default=str)[:4000])
     return 1
